@@ -53,6 +53,19 @@ type Scenario struct {
 	Clustered bool  `json:"clustered"`
 	Cloud     bool  `json:"cloud"`
 	Cfgs      []Cfg `json:"configs"`
+	// PlainDefault: the server's default storage policy holds only the disk "default" (a table can be moved to
+	// another disk only once it is on a configured policy that holds it); false = the default policy holds every disk
+	PlainDefault bool `json:"plain_default,omitempty"`
+}
+
+var allDisks = []string{"default", "cold", "warm", "s3"}
+
+func (s *Scenario) policies() map[string][]string {
+	p := map[string][]string{"default": allDisks, "tiered": allDisks, "archive": allDisks}
+	if s.PlainDefault {
+		p["default"] = []string{"default"}
+	}
+	return p
 }
 
 func (c Cfg) String() string {
@@ -114,6 +127,15 @@ func genScenario(r *rand.Rand) Scenario {
 			s.Cfgs = append(s.Cfgs, genCfg(r))
 		}
 	}
+	if r.Intn(2) == 0 {
+		// a server whose default policy has one disk: tier moves need a configured storage policy
+		s.PlainDefault = true
+		for i := range s.Cfgs {
+			if s.Cfgs[i].Policy == "" {
+				s.Cfgs[i].Tiers = nil
+			}
+		}
+	}
 	return s
 }
 
@@ -130,6 +152,8 @@ func fixedScenarios() []Scenario {
 		{Cfgs: []Cfg{{TTLDays: 7, Tiers: []Tier{{100 * 86400, "cold"}}, Policy: "tiered"}, {TTLDays: 1, Tiers: []Tier{{100 * 86400, "cold"}}, Policy: "tiered"}}},
 		{Cfgs: []Cfg{{TTLDays: 7}, {TTLDays: 365}, {TTLDays: 7}}},
 		{Clustered: true, Cfgs: []Cfg{{TTLDays: 7}, {TTLDays: 7, Policy: "tiered"}, {TTLDays: 7, Policy: "archive"}, {TTLDays: 7}}},
+		{PlainDefault: true, Cfgs: []Cfg{{TTLDays: 7}, oneTier}},
+		{PlainDefault: true, Clustered: true, Cfgs: []Cfg{{TTLDays: 7}, {TTLDays: 7, Policy: "archive"}, {TTLDays: 30, Tiers: []Tier{{86400, "s3"}, {7200, "warm"}}, Policy: "archive"}}},
 	}
 }
 
@@ -499,11 +523,12 @@ type replayCase struct {
 var initCache sync.Map // deployment+policy -> *cat.Catalogue after Update on an empty database
 
 func initialState(s *Scenario, cfg Cfg) (*cat.Catalogue, error) {
-	key := fmt.Sprintf("%v/%v/%s", s.Clustered, s.Cloud, cfg.Policy)
+	key := fmt.Sprintf("%v/%v/%s/%v", s.Clustered, s.Cloud, cfg.Policy, s.PlainDefault)
 	if v, ok := initCache.Load(key); ok {
 		return v.(*cat.Catalogue).Clone(), nil
 	}
 	st := cat.New(dbName)
+	st.Policies = s.policies()
 	if err := runUpdate(st, s, cfg); err != nil {
 		return nil, err
 	}
@@ -769,7 +794,7 @@ func Main(c *run.Ctx) {
 		"an interrupted run followed by a run with the next configuration must reach that configuration")
 	c.Assume("one catalogue stands for the whole cluster (ON CLUSTER reaches every node)")
 	c.Assume("NOW() strictly increases from statement to statement (logical clock): argMax(value, inserted_at) picks the latest INSERT; real NOW() has 1 s resolution, ties are not modelled")
-	c.Assume("ClickHouse accepts every MODIFY TTL / MODIFY SETTING storage_policy the code issues (disk existence in the policy, policy compatibility and readonly settings are not modelled)")
+	c.Assume("storage policies tiered and archive hold every disk; the server's default policy holds every disk, or (half of the generated scenarios) only the disk default - then MODIFY TTL ... TO DISK is refused (code 450) for a table that is not on a configured policy, and configurations without a policy have no tier moves. Policy compatibility on MODIFY SETTING and readonly settings are not modelled")
 	c.Assume("with no storage policy configured nothing is required of a table's storage policy")
 	nScen := c.Pick(200, 5000)
 	rng := c.Rng("c19-scenarios")
